@@ -20,17 +20,17 @@ CLAIMS = {
          "Proved for all instants and all i32 ack_deadline_seconds: AckDeadline::new(t) lies in [t, t + 1 s) (the code rounds to a 100 ms grid; the contract only demands the statement's sub-second slack) (after fix d51d4eb; the pinned tree was up to 999 ns early: known_findings.jsonl), pull gives deadline = now + D, D = max(seconds, 10) s, take_expired returns exactly the leases with deadline <= now, next_expiration is the minimum deadline, handle_expired_messages requeues exactly those.",
          "Trusted: that tokio wakes the actor at sleep_until(min deadline) and the Notify re-arming in poll_next_expired (async, A-GLUE); Instant stand-in = u64 nanoseconds, EPOCH not later than any now() (A-STUB); clock below 2^60 ns (A-ARITH)."),
  "C05": ("proof",
-         "Proved: seconds -> Option<Duration> classification over all i32 (<0 INVALID_ARGUMENT, 0 nack, 1..599, >=600 capped); per-pair body of parse_deadline_modifications (lifted region) yields exactly the modification with deadline in [now+N, now+N+100ms) or the error; OutstandingMessageTracker::modify equals the fold of the per-modification spec in request order (old expiry key removed, new inserted, nacked lease returned), modify_deadline appends the nacked messages to the backlog in the same turn; unknown ids are skipped.",
-         "Bounded only (Kani, labelled): the zip/map/collect::<Result<Vec,_>> plumbing of parse_deadline_modifications (all-or-nothing). Trusted: that the handler's `?` precedes its only state-touching call (structural), async glue."),
+         "Proved: seconds -> Option<Duration> classification over all i32 (<0 INVALID_ARGUMENT, 0 nack, 1..599, >=600 capped); per-pair body of parse_deadline_modifications (lifted region) yields exactly the modification with deadline in [now+N, now+N+100ms) or the error, and the whole function returns one such modification per (ack id, seconds) pair in request order or fails as a whole with INVALID_ARGUMENT; OutstandingMessageTracker::modify equals the fold of the per-modification spec in request order (old expiry key removed, new inserted, nacked lease returned), modify_deadline appends the nacked messages to the backlog in the same turn; unknown ids are skipped.",
+         "The zip/map/collect::<Result<Vec,_>> plumbing of parse_deadline_modifications is now under contract on the whole function (one modification per pair in request order; Ok only if every pair is well-formed, the only failure is INVALID_ARGUMENT), using vstd's zip/map/collect specifications and one trusted axiom for std's `impl FromIterator<Result<A,E>> for Result<Vec<A>,E>` (all items unwrapped in order, or one of the errors); normalisation N12 binds the closure's tuple-pattern parameter by a `let`. Trusted: that the handler's `?` precedes its only state-touching call (structural), async glue."),
  "C08": ("proof of the sequential parts (scoped)",
          "Proved: the id-assignment region of publish_messages returns exactly one id per submitted message in request order, id i = (topic id << 32) | (counter + 1 + i), counter advances by n; ids are strictly monotone in the counter (bit-vector lemma); pull returns a prefix of the backlog in order and post appends at the end; history lemma lemma_fifo (unbounded histories of actor turns): the sequence of first deliveries on a subscription is a prefix of the sequence of accepted posts, each post's batch contiguous and in request order - requeued messages never overtake a never-delivered one.",
          "NOT covered: 'awaits all posts before the next publish' and equal order on every subscription (async fan-out, A-GLUE); fewer than 2^32-1 messages per topic (A-ARITH, u32 counter)."),
  "C09": ("proof of the mapping code (scoped)",
-         "Proved: request -> TopicMessage -> ReceivedMessage keeps data bytes and attribute map, message_id is Display of the assigned id, one publish time; MessageId::new is injective on (topic id, counter) (bit-vector proof); topic internal ids are fresh and never reused (delete does not touch next_id); the HTTP push payload region carries base64(data), both id fields, the subscription name and (after fix 79f6033) the attributes.",
+         "Proved: request -> TopicMessage -> ReceivedMessage keeps data bytes and attribute map, message_id is Display of the assigned id, one publish time; MessageId::new is injective on (topic id, counter) (bit-vector proof); topic internal ids are fresh and never reused (delete does not touch next_id); the HTTP push payload region carries base64(data), both id fields, the subscription name and (after fix 79f6033) the attributes; the unary Pull helper pull_messages maps the leases it was handed position by position (each ReceivedMessage carries the data, attributes, ids and publish time of the lease at its position).",
          "Trusted: prost / serde_json / base64 encoders, Display of u64 (A-LIB, A-STR: uninterpreted injective functions); Bytes and SystemTime stand-ins; u32 counter wrap (A-ARITH)."),
  "C10": ("proof of the map operations (scoped)",
          "Proved: State::create_topic / State::create_subscription succeed exactly when the name is absent, then insert exactly that name with a fresh increasing internal id, and leave the state unchanged on ALREADY_EXISTS; the same-project rule is decided before any state access; delegate delete is map.remove; effective ack deadline = max(seconds, 10) for all i32; TopicActor::attach_subscription never fails (the create path registers the name before the attach and has no rollback, so 'a failed create leaves nothing behind' rests on this); read-back (bundle B6): parse_push_config stores the request's endpoint (trimmed), attributes and oidc token, map_to_subscription_resource reports the stored name, topic, whole seconds of the ack deadline and push configuration, and the two compose to the identity (lemma_push_config_roundtrip, lemma_ack_deadline_roundtrip: reported deadline = max(seconds, 10) for every i32).",
-         "The lookup helpers of the handlers (get_subscription, get_topic_internal, subscription_not_found, topic_not_found, conflict) are under contract in B6: an absent name is answered with NOT_FOUND. NOT covered: linearizability across threads (parking_lot::RwLock trusted; that each wrapper holds the guard around exactly one State call is structural), 'later requests observe it' through the actors, the remaining status mapping inside the async handlers (gRPC scenario `namespace`)."),
+         "The lookup helpers of the handlers (get_subscription, get_topic_internal, subscription_not_found, topic_not_found, conflict) are under contract in B6: an absent name is answered with NOT_FOUND. NOT covered: linearizability across threads (parking_lot::RwLock trusted; that each wrapper holds the guard around exactly one State call is structural), 'later requests observe it' through the actors, the status mapping inside the other async handlers (gRPC scenario `namespace`). The status mapping of the two create handlers is under contract (B6, match arms of their map_err closures lifted as regions): CreateTopic / CreateSubscription answer ALREADY_EXISTS for an existing name, CreateSubscription NOT_FOUND for an absent topic and INVALID_ARGUMENT for a topic in another project."),
  "C11": ("proof of the set algebra (scoped)",
          "Proved: topic actor remove_subscription removes exactly the named entry, delete clears the set, sets deleted and is idempotent, attach never overwrites; subscription delete empties backlog and leases and sets deleted, after which post/pull/ack/modify are no-ops.",
          "NOT covered: order of effects across the two actors, liveness of the Weak<Topic>, that the Weak<Topic> is dead exactly when the topic is deleted (the mapping itself is under contract in B6: live topic -> its name, dead -> the deleted marker), re-creation not re-attaching (call-graph fact)."),
@@ -39,10 +39,10 @@ CLAIMS = {
          "Assumed contracts (listed in trusted_base): PageToken::encode/try_decode (base64 + to_ne_bytes; Verus cannot specify const-generic array lengths; a complete Kani harness ran out of memory at 30 GB, so the codec is swept by the bounded stand-in `tokens` on the mounted source file), <[T]>::sort_unstable. The sort + skip/take/collect tails of list_topics and list_subscriptions_in_project are under contract (window == page_items); their filter/collect heads and the window of TopicActor::list_subscriptions use the `cloned` adapter (no vstd spec) and are covered by the bounded stand-ins only; creation order = order of internal ids (C10)."),
  "C15": ("proof for the size bound (scoped for emptiness)",
          "Proved: the batch of pull_messages has at most max_count messages (at most one when the 16-bit limit is 0), never more than the backlog, and is empty only when the backlog is (contract clause `count_ok`; the exact count incl. the `usize as u16` truncation of the backlog length is a loop-level obligation); conversion lemma over all i32 m >= 1: such a batch never exceeds m even where `m as u16` wraps; streaming limit: try_into::<u16> rejects out-of-range values with INVALID_ARGUMENT; pull returns empty iff the backlog is empty.",
-         "NOT covered by contracts: the unary wait loop / 5-minute timer (select!) and the wake-up of further waiting consumers when a full batch leaves messages behind (Notify; gRPC scenarios `pull_limits`, `two_waiters`, `stream_limits` stand in); the `as u16` cast site itself sits inside an async block (the lemma covers its arithmetic)."),
+         "NOT covered by contracts: the unary wait loop / 5-minute timer (select!) and the wake-up of further waiting consumers when a full batch leaves messages behind (Notify; gRPC scenarios `pull_limits`, `two_waiters`, `stream_limits` stand in); the StreamingPull loop body (try_stream! macro). The unary path from the request to the subscription handle is under contract (B5): the helper pull_messages (async fn, verified as such) returns one ReceivedMessage per message handed out, and the `request.max_messages as u16` call site of the pull handler (lifted region) yields at most max_messages messages for every i32 >= 1; the handle method itself is a trusted stand-in carrying the actor's proved count clause (A-GLUE)."),
  "C17": ("proof per parser (scoped)",
          "Proved: every parser under contract is total and panic-free (no unwrap, slicing through checked get, all integer arithmetic overflow-checked), returns INVALID_ARGUMENT exactly on the malformed class; streaming control-message validation rejects inconsistent messages before any subscription call.",
-         "NOT covered: 'changes no state / connection survives' at RPC level, panics inside tonic/prost; parse_push_config is under contract (B6: INVALID_ARGUMENT exactly when the trimmed endpoint does not start with \"http\"); parse_project_id is not; AckId::parse is an assumed contract over str::parse::<u64>."),
+         "NOT covered: 'changes no state / connection survives' at RPC level, panics inside tonic/prost; parse_push_config is under contract (B6: INVALID_ARGUMENT exactly when the trimmed endpoint does not start with \"http\"); parse_project_id and its fn-local `parse` are under contract (B3: Ok exactly on the prefix \"projects/\", the id is the rest of the text); AckId::parse is verified against an assumed contract of std's str::parse::<u64> (FromStr declared to Verus; no longer an assumed contract of its own)."),
  "C18": ("proof",
          "Proved on the byte view of &str (after fix 0473433), both directions: try_parse(s) = Some(n) implies s = \"projects/\" p \"/topics/\" rest with '/' not in p, p non-empty, n.id = rest trimmed of '/' and non-empty; and every string of that form is accepted (so the canonical echo of an accepted name is accepted); likewise /subscriptions/.",
          "Trusted (A-STR): byte-level contracts of str::starts_with / find / trim_matches, Box<str>: From<&str>, lengths and end bytes of the literal segments, 'an ASCII byte and the position after it are char boundaries' (completeness only); Display and the derived Eq/Hash of the names are not under contract."),
